@@ -3,4 +3,6 @@ package inference
 var ndHarnesses = map[string]func(){
 	"Harness_C05_L1": Harness_C05_L1,
 	"Harness_C05_L2": Harness_C05_L2,
+	"Harness_C06":    Harness_C06,
+	"Harness_C06_Export": Harness_C06_Export,
 }
